@@ -33,6 +33,7 @@ EXPLANATION = (
 LEVEL_NOTE = 'necessary conditions only; graph denotation for arbitrary programs is not decided'
 LEVEL_TEXT_ADD = ' Also: constants table discipline (C01.const; signed zero is a known finding) and idempotent per-input edge updates in dead-code elimination.'
 LEVEL_TEXT_ADD += ' Rounds e-f: a unit is removed only on a rewrite path and is never read by its replacement; dead-code elimination visits an input once.'
+LEVEL_TEXT_ADD += ' Round i: a rewrite hands a whole reader set only to a unit it has just made.'
 LEVEL_TEXT = (globals().get('LEVEL_TEXT') or EXPLANATION) + LEVEL_TEXT_ADD
 
 REFS = os.path.join(os.path.dirname(os.path.dirname(__file__)), 'refs')
